@@ -37,7 +37,10 @@ type BytesView struct {
 	B     []byte
 	K     string
 	MFree bool
+	DC    [][2]int64
 }
+
+func (v *BytesView) DontCare() [][2]int64 { return v.DC }
 
 func (v *BytesView) Size() int64     { return int64(len(v.B)) }
 func (v *BytesView) Kind() string    { return v.K }
